@@ -1560,6 +1560,9 @@ impl Engine for StorEngine {
       octet_before_delimiter_id();
     }
     if prop == "C04" && !ctx::has_violation() && ctx::choose(16) == 0 {
+      id_with_blank_around();
+    }
+    if prop == "C04" && !ctx::has_violation() && ctx::choose(16) == 0 {
       custom_method_data_with_property();
     }
     if prop == "C04" && !ctx::has_violation() && ctx::choose(16) == 0 {
@@ -1696,6 +1699,71 @@ fn octet_before_delimiter_id() {
       "C04.round_trip",
       "method-id-with-percent-octet-before-delimiter/does-not-survive-json",
       format!("document with method id {mid} (built with the validating setters, accepted by insert_method): {e}"),
+    );
+  }
+}
+
+/// A document written elsewhere in which one identifier (document id, method id, a reference, a service id) has a
+/// blank, tab, line feed or control character before or behind it. The library may refuse it; a document it ACCEPTS has
+/// to survive its own JSON form and its entries have to be found by their full ids.
+fn id_with_blank_around() {
+  let did = "did:sim:ws";
+  let blank = [" ", "\t", "\n", "\u{1}", "  "][ctx::choose(5)];
+  let before = ctx::choose(3) != 0;
+  let place = ctx::choose(4);
+  let deco = |s: String, here: bool| -> String {
+    if !here {
+      s
+    } else if before {
+      format!("{blank}{s}")
+    } else {
+      format!("{s}{blank}")
+    }
+  };
+  let mut method = serde_json::to_value(harness_method(did, "k1", 5)).unwrap();
+  method["id"] = deco(format!("{did}#k1"), place == 1).into();
+  let j = serde_json::json!({
+    "id": deco(did.to_owned(), place == 0),
+    "verificationMethod": [method],
+    "authentication": [deco(format!("{did}#k1"), place == 2)],
+    "service": [{"id": deco(format!("{did}#s1"), place == 3), "type": "SimService", "serviceEndpoint": "https://sim.example/s1"}],
+  });
+  ctx::stat("probe.id_with_blank_around");
+  let Ok(doc) = CoreDocument::from_json_value(j) else {
+    ctx::stat("observation.id_with_blank_around_refused");
+    return;
+  };
+  ctx::stat("probe.id_with_blank_around_accepted");
+  ctx::sched("wsid", (place * 16 + blank.len() * 2 + before as usize) as u64);
+  let where_ = ["document id", "method id", "method reference", "service id"][place];
+  let r = doc
+    .to_json()
+    .map_err(|e| format!("to_json failed: {e}"))
+    .and_then(|j| CoreDocument::from_json(&j).map_err(|e| format!("own JSON rejected: {e}")))
+    .and_then(|back| if back == doc { Ok(()) } else { Err("JSON round trip yields a different document".to_owned()) })
+    .and_then(|()| {
+      for m in doc.methods(None) {
+        let id = m.id().to_string();
+        match doc.resolve_method(id.as_str(), None) {
+          Some(found) if found.id() == m.id() => {}
+          _ => return Err(format!("resolve_method({id:?}) does not return the method with that id")),
+        }
+      }
+      for s in doc.service().iter() {
+        let id = s.id().to_string();
+        match doc.resolve_service(id.as_str()) {
+          Some(found) if found.id() == s.id() => {}
+          _ => return Err(format!("resolve_service({id:?}) does not return the service with that id")),
+        }
+      }
+      Ok(())
+    });
+  if let Err(e) = r {
+    ctx::violation(
+      "C04",
+      "C04.round_trip",
+      "accepted-id-with-blank-around/does-not-survive-json-or-lookup",
+      format!("document accepted with a {} {} its {where_}: {e}", blank.escape_debug(), if before { "before" } else { "behind" }),
     );
   }
 }
